@@ -1089,6 +1089,15 @@ fn main() {
         }
         return;
     }
+    // a replay file of the in-process half (`answers`) is not ours to judge
+    if let Some(path) = &args.replay {
+        if read_replay_ops(path).iter().any(|l| l.starts_with("esdp ") || l.starts_with("resp ") || l.starts_with("tmpl ")) {
+            if !args.out.is_empty() {
+                let _ = std::fs::write(&args.out, r#"{"area":"faults","evaluations":0,"failures":[],"note":"replay belongs to the answers run"}"#);
+            }
+            std::process::exit(0);
+        }
+    }
     let mut rc = run_area(&Faults, &args);
     // guard of the `inconclusive` escape: it must stay rare
     if !args.out.is_empty() && args.replay.is_none() {
